@@ -1,0 +1,25 @@
+//go:build verif
+
+// Machine-checked contracts for package pkcs7 (comment-only; see /verif/DESIGN.md).
+
+package pkcs7
+
+//@ func marshalCertificates
+//@   property C07
+//@   modifies nothing
+//@
+//@ func (*SignatureBuilder).Sign
+//@   property C07
+//@   ghost pub crypto.PublicKey = nil
+//@   ghost pubFromKey bool = false
+//@   ghost matched bool = false
+//@   ghost sigValue []byte = nil
+//@   on call invoke crypto.Signer.Public(k) ret (p): pub = p; pubFromKey = (k == sb.privateKey)
+//@   on call x509tools.SameKey(a, b) ret (r): matched = (r && pubFromKey && a == pub && b == sb.certs[0].PublicKey)
+//@   before call invoke crypto.Signer.Sign(k, _, _, _): assert @signs_with_the_builders_key_after_the_match k == sb.privateKey && matched
+//@   on call invoke crypto.Signer.Sign(_, _, _, _) ret (s, e): sigValue = s
+//@   ensures @first_certificate_matches_the_signing_key ret1 == nil ==> matched && len(sb.certs) >= 1
+//@   ensures @signer_identified_by_that_certificate ret1 == nil ==> len(ret0.Content.SignerInfos) == 1 && \
+//@        ret0.Content.SignerInfos[0].IssuerAndSerialNumber.SerialNumber == sb.certs[0].SerialNumber && \
+//@        sameslice(ret0.Content.SignerInfos[0].IssuerAndSerialNumber.IssuerName.FullBytes, sb.certs[0].RawIssuer)
+//@   ensures @signature_value_is_the_keys_output ret1 == nil ==> sameslice(ret0.Content.SignerInfos[0].EncryptedDigest, sigValue)
